@@ -118,3 +118,34 @@ fn c19_parser_total_truncations_enum() {
 // @stubs alloc::fmt::format -> empty string
 // @witness cover: some truncation parses
 // (harness body: harness/autosql_inner.rs)
+
+// @harness c19_enum_list_terminates
+// @props C19
+// @tier off
+// @kind core
+// @timeout 2400
+// @mem 24
+// @unwind_is_property yes
+// @modpath bed::autosql::parse::verif_kani_inner
+// @sub src/bed/autosql.rs ::: pub mod parse { ::: pub mod parse { #[cfg(kani)] #[allow(unused)] mod verif_kani_inner { include!("{HARNESS_DIR}/autosql_inner.rs"); }
+// @functions bed::autosql::parse::FieldType::try_parse (enum value list loop), parser::Parser::{peek_word, take, eat_one, eat_word, take_whitespace}
+// @bounds input = `enum(` followed by every string of length 0..=2 over { ( ) space , ; a }, then end of input; the value-list loop must exit within 10 iterations (inputs have at most 2 characters after the bracket) and never panic
+// @stubs alloc::fmt::format -> empty string
+// @cut longer inputs; whole declarations
+// @witness cover: some input parses
+// (harness body: harness/autosql_inner.rs)
+
+// @harness c19_set_list_terminates
+// @props C19
+// @tier off
+// @kind core
+// @timeout 2400
+// @mem 24
+// @unwind_is_property yes
+// @modpath bed::autosql::parse::verif_kani_inner
+// @sub src/bed/autosql.rs ::: pub mod parse { ::: pub mod parse { #[cfg(kani)] #[allow(unused)] mod verif_kani_inner { include!("{HARNESS_DIR}/autosql_inner.rs"); }
+// @functions bed::autosql::parse::FieldType::try_parse (set value list loop), parser::Parser::*
+// @bounds as c19_enum_list_terminates with `set(`
+// @stubs alloc::fmt::format -> empty string
+// @witness cover: some input parses
+// (harness body: harness/autosql_inner.rs)
